@@ -401,5 +401,5 @@ def sparc_FPop2_(obj, rd, rs1, rs2):
 @ispec("32[ 10 rd(5) 110110 rs1(5) opc(9) rs2(5) ]", mnemonic="cpop1")
 @ispec("32[ 10 rd(5) 110111 rs1(5) opc(9) rs2(5) ]", mnemonic="cpop2")
 def sparc_CPop(obj, rd, rs1, opc, rs2):
-    obj.operands = [opc, env.c[rs1], env.c[rs2], env.c[rd]]
+    obj.operands = [env.cst(opc, 9), env.c[rs1], env.c[rs2], env.c[rd]]
     obj.type = type_other
